@@ -93,13 +93,63 @@ let oracle_feed args impl =
 
 let oracle_hist args impl = [("hist_matches_model", op_hist args = impl)]
 
+(* ---------------- ansi ---------------- *)
+let panic_marker = [-999999]
+let put_res = function Ok t -> put_text t | Panic -> panic_marker
+let op_expand args =
+  let (t, _) = take_text args in
+  let cs = expand t in
+  List.length cs :: List.concat_map (fun c -> put_text c.pre @ [int_of_n c.letter; b2i c.rst]) cs
+let op_apply args = let (t, r) = take_text args in let (s, _) = take_text r in put_text (apply t s)
+let op_indent args =
+  let (t, r) = take_text args in let (p, r) = take_text r in let (i, _) = take1 r in put_text (indent t p (i <> 0))
+let op_pad args = let (t, r) = take_text args in let (l, _) = take1 r in put_text (pad t (z_of_int l))
+let op_wrap args = let (t, r) = take_text args in let (l, _) = take1 r in put_text (wrap t (z_of_int l))
+let op_dumbwrap args = let (t, r) = take_text args in let (l, _) = take1 r in put_text (dumb_wrap t (z_of_int l))
+let op_snip args =
+  let (t, r) = take_text args in let (w, r) = take1 r in let (h, r) = take1 r in let (e, _) = take_text r in
+  put_res (snip t (z_of_int w) (z_of_int h) e)
+let op_center args =
+  let (p, r) = take_text args in let (c, r) = take_text r in let (s, r) = take_text r in let (h, _) = take1 r in
+  put_text (center_vertically p c s (z_of_int h))
+let op_replacelast args = let (o, r) = take_text args in let (n, _) = take_text r in put_res (replace_last_line o n)
+let op_setlength args =
+  let (t, r) = take_text args in let (l, r) = take1 r in let (e, _) = take_text r in put_res (set_length t (z_of_int l) e)
+let op_scrub args = let (t, _) = take_text args in put_text (scrub t)
+let op_squash args = let (t, _) = take_text args in put_text (squash t)
+let op_height args = let (t, _) = take_text args in [int_of_z (height t)]
+let op_unitable args =
+  match args with
+  | [lo; hi] ->
+    let sp = ref [] and ct = ref [] in
+    for c = hi - 1 downto lo do
+      if is_space (n_of_int c) then sp := c :: !sp;
+      if is_control (n_of_int c) then ct := c :: !ct
+    done;
+    put_list !sp @ put_list !ct
+  | _ -> raise (Bad "unitable")
+
 (* ---------------- dispatch ---------------- *)
 let handlers : (string, (int list -> int list) * (int list -> int list -> (string * bool) list)) Hashtbl.t = Hashtbl.create 64
 let reg name f o = Hashtbl.replace handlers name (f, o)
 let no_oracle _ _ = []
 let () =
   reg "hist" op_hist oracle_hist;
-  reg "feed" op_feed oracle_feed
+  reg "feed" op_feed oracle_feed;
+  reg "expand" op_expand no_oracle;
+  reg "apply" op_apply no_oracle;
+  reg "indent" op_indent no_oracle;
+  reg "pad" op_pad no_oracle;
+  reg "wrap" op_wrap no_oracle;
+  reg "dumbwrap" op_dumbwrap no_oracle;
+  reg "snip" op_snip no_oracle;
+  reg "center" op_center no_oracle;
+  reg "replacelast" op_replacelast no_oracle;
+  reg "setlength" op_setlength no_oracle;
+  reg "scrub" op_scrub no_oracle;
+  reg "squash" op_squash no_oracle;
+  reg "height" op_height no_oracle;
+  reg "unitable" op_unitable no_oracle
 
 let split_ws s = List.filter (fun x -> x <> "") (String.split_on_char ' ' (String.trim s))
 
